@@ -106,15 +106,35 @@ def run(ctx):
                'the buffer parsed is not read from fopen(<path formatted from the pid>)')
     chk.ob('X1', 'pid-chain', ok, pathcall.where(), W.name, detail,
            how='pid = getppid(), then only sscanf(<stat text>, ..., &pid)')
-    # the loop ends at pid 0
+    # the walk ends at pid 0 and nowhere earlier: every exit condition of the walk loop that tests the pid compares it
+    # with 0 (pid 1 - init, or the top of a container - is an ancestor like any other and must be inspected)
     zero = False
-    for b in W.blocks.values():
-        c = strip(b.cond) if b.cond is not None else None
-        if c is not None and c.k == 'BinaryOperator' and c['op'] in ('!=', '>', '==') and pv is not None and \
-                any(n.k == 'DeclRefExpr' and n['ref'].get('id') == pv['id'] for n in c.walk()) and \
-                any(strip(x).get('v') == 0 for x in c.ch):
-            zero = True
-    chk.ob('X1', 'walk-stops-at-pid-0', zero, W.where(), W.name, 'the walk is not bounded by "pid != 0"', nontrivial=False)
+    other = []
+    if pv is not None:
+        live = C.reachable_blocks(W)
+        for comp in C._sccs(W, live):
+            if not (len(comp) > 1 or comp[0] in W.blocks[comp[0]].succs):
+                continue
+            cs = set(comp)
+            for bid in comp:
+                b = W.blocks[bid]
+                c = strip(b.cond) if b.cond is not None else None
+                if c is None or not any(s_ not in cs for s_, u in b.all_succs if s_ is not None and not u):
+                    continue
+                if c.k != 'BinaryOperator' or c['op'] not in ('!=', '>', '==', '<', '>=', '<='):
+                    continue
+                ids = [(decl_of(x) or {}).get('id') for x in c.ch]
+                if pv['id'] not in ids:
+                    continue
+                k = [strip(x).get('v') for x in c.ch if (decl_of(x) or {}).get('id') != pv['id']]
+                if k and k[0] == 0 and c['op'] in ('!=', '>', '=='):
+                    zero = True
+                elif k and k[0] is not None:
+                    other.append(c)
+    chk.ob('X1', 'walk-stops-at-pid-0', zero and not other, (other[0] if other else W.body).where(), W.name,
+           ('the walk also ends on %s: the ancestor with that pid is never compared with the list (pid 1 is the '
+            'entrypoint/supervisor of every container)' % render(other[0])) if other else 'the walk is not bounded by "pid != 0"',
+           nontrivial=False, how='the only pid test that leaves the loop is a comparison with 0')
     # ---- X2 --------------------------------------------------------------------------------------
     # (a) find_string_in_array-like: returns non-zero only through strcmp == 0
     S = None
